@@ -125,7 +125,7 @@ func RunC11(r *core.Run) {
 	r.Rule = "case = (parser, configuration, text x, junk prefix of length k, cut schedule); x is parsed at offset 0 and junk||x at offset k along the same schedule shifted by k; verdicts must be equal, returned offsets and every reported field must differ by exactly k (a never-set (0,0) field stays (0,0)), numbers/types/flags/counts must be equal; k in {1,2,3,13,255,256,257,4096,60000,65535-|x|,65534-|x|} and random; non-trivial = a definitive verdict was reached and compared; distinct by hash(x,k,configuration). Relocation of parsed URIs is part of C18 and repeated here in a small stage"
 	r.Assume = []string{"texts end at or before the 65,535-byte addressing limit"}
 	type wk struct{ big []byte }
-	n := r.Pick(150000, 5000000)
+	n := r.Pick(600000, 10000000)
 	r.Stage("long-inputs", n, func(w *core.Worker, idx int64) {
 		rr := core.NewRand(r.Seed, 0xC11, 1, uint64(idx))
 		p := Parsers[rr.Intn(len(Parsers))]
@@ -200,7 +200,7 @@ func RunC11(r *core.Run) {
 		st.Space = es.Desc() + fmt.Sprintf(" wrapped in %q/%q, parsers %v, k in {1,3}, one-shot and every prefix", f.Prefixes, f.Suffixes, f.Parsers)
 	}
 	// relocation of parsed URIs
-	r.Stage("uri-relocation", r.Pick(40000, 1000000), func(w *core.Worker, idx int64) {
+	r.Stage("uri-relocation", r.Pick(200000, 3000000), func(w *core.Worker, idx int64) {
 		rr := core.NewRand(r.Seed, 0xC11, 3, uint64(idx))
 		u := []byte(gen.URI(rr).String())
 		if rr.Intn(4) == 0 {
@@ -266,11 +266,32 @@ func relocateCheck(u []byte, t, span int, rr *core.Rand) string {
 		if of[i].Len != nf[i].Len {
 			return fmt.Sprintf("%s length changed from %d to %d", names[i], of[i].Len, nf[i].Len)
 		}
-		if of[i].Len == 0 {
-			continue
+		if of[i].Offs == 0 && of[i].Len == 0 {
+			if nf[i].Offs != 0 {
+				return fmt.Sprintf("%s was never set (0,0) but is %v after the move", names[i], nf[i])
+			}
+			continue // never-set field stays (0,0)
 		}
+		// every reported field (also a present-but-empty one) is shifted by exactly t
 		if int(nf[i].Offs) != int(of[i].Offs)+t {
-			return fmt.Sprintf("%s moved from %d to %d, expected %d", names[i], of[i].Offs, nf[i].Offs, int(of[i].Offs)+t)
+			return fmt.Sprintf("%s %v moved to %v, expected offset %d (shift by exactly %d)", names[i], of[i], nf[i], int(of[i].Offs)+t, t)
+		}
+	}
+	// a relocated URI is still a parsed URI: moving it once more must work the same way
+	t2 := rr.Intn(65535 - len(u))
+	q2 := q
+	var ok2 bool
+	pan, pmsg, _ = core.Guard(func() { ok2 = q2.AdjustOffs(sipsp.PField{Offs: sipsp.OffsT(t2), Len: sipsp.OffsT(len(u))}) })
+	if pan {
+		return "second AdjustOffs panicked: " + pmsg
+	}
+	if !ok2 {
+		return fmt.Sprintf("URI relocated to %d cannot be relocated again to %d (span %d = its length)", t, t2, len(u))
+	}
+	nf2 := []sipsp.PField{q2.Scheme, q2.User, q2.Pass, q2.Host, q2.Port, q2.Params, q2.Headers}
+	for i := range of {
+		if (of[i].Offs != 0 || of[i].Len != 0) && (int(nf2[i].Offs) != int(of[i].Offs)+t2 || nf2[i].Len != of[i].Len) {
+			return fmt.Sprintf("after a second relocation to %d: %s is %v, expected offset %d len %d", t2, names[i], nf2[i], int(of[i].Offs)+t2, of[i].Len)
 		}
 	}
 	return ""
